@@ -22,7 +22,7 @@ NUMBERS = [0, 1, -1, 2, 7, 8, 63, 64, 100, 101, 127, 128, 150, 254, 255, 256, 36
            1e10, 1e38, 3.5e38, 1e39, -1e39, float("inf"), float("-inf"), float("nan")]
 TEXTS = ["", "a", "abc", "a" * 14, "a" * 15, "ä" * 7, "ä" * 14, "€", "\x00", "auto", "comfort", "Comfort", "heat", "on", "1"]
 FOREIGN = [None, {}, {"a": 1}, [], [1, 2], (1, 2, 3), b"\x01\x02", object, True, False]
-LISTS = [[], [0], [255], [256], [-1], [1.5], [300, -1], [0] * 14, [255] * 15, [1] * 253, [1] * 254, [1] * 255, [1] * 256, (1, 2), (256,), b"", b"\x00", bytes(range(20)), ["1"], [None]]
+LISTS = [[], [0], [255], [256], [-1], [1.5], [1.0, 2.0], (255.0,), [True], [300, -1], [0] * 14, [255] * 15, [1] * 253, [1] * 254, [1] * 255, [1] * 256, (1, 2), (256,), b"", b"\x00", bytes(range(20)), ["1"], [None]]
 
 
 def vkind_for(value, wants):
@@ -202,7 +202,7 @@ def run(ck):
         for desc, fn in setters:
             for v in pool:
                 one("device", desc, lambda fn=fn, v=v: fn(v), v, {"text"} if "Notification" in desc else {"int"} if "RawValue" in desc else {"int", "float"})
-        for color in [(0, 0, 0), (255, 255, 255), (256, 0, 0), (-1, 0, 0), (1.5, 2, 3), (1, 2), (1, 2, 3, 4)]:
+        for color in [(0, 0, 0), (255, 255, 255), (256, 0, 0), (-1, 0, 0), (1.5, 2, 3), (10.0, 20.0, 30.0), (True, False, True), (1, 2), (1, 2, 3, 4)]:
             one("device", "Light.set_color", lambda c=color: light.set_color(c), list(color), set())
             one("device", "Light.set_color(rgbw)", lambda c=color: light.set_color(c, 300), list(color), set())
     finally:
